@@ -148,6 +148,18 @@ def mutate_path(rng: random.Random, p: str, all_tags: list[str]) -> str:
 	return '.'.join(e for e in elems if e != '') or 'root'
 
 
+_FINDER: list[Any] = []
+
+
+def shared_finder() -> Any:
+	"""ONE ASTFinder instance for every case of every stream and search: a finder must not carry state from one tree to the
+	next (a result cache keyed by the path string alone would answer with the entry of an earlier tree)."""
+	if not _FINDER:
+		from rogw.tranp.syntax.ast.finder import ASTFinder
+		_FINDER.append(ASTFinder())
+	return _FINDER[0]
+
+
 def tag_of(el: str) -> str:
 	return el.split('[')[0]
 
@@ -172,22 +184,14 @@ def ideal_expand(via: str, paths: list[str], has_child: Any, resolvable: Any, ca
 	return out
 
 
-def expand_safety(nodes: Any, via: str) -> tuple[bool, bool, bool]:
-	"""The three side conditions of `C10.expand_spec` / `expand_spec_full`, re-computed on the real objects:
-	PrefixSafe, RelativefySafe, and "nothing expandable deeper than three levels"."""
+def expand_safety(nodes: Any, via: str) -> tuple[bool, bool]:
+	"""The side conditions of `C10.expand_spec` / `expand_spec_full`, re-computed on the real objects:
+	RelativefySafe, and "nothing expandable deeper than three levels"."""
 	from rogw.tranp.syntax.ast.path import EntryPath
 	cache = nodes._Nodes__entries
 	resolver = nodes._Nodes__resolver
 	under = cache.group_by(via, 3)
 	keys = list(under.keys())
-	prefix_safe = True
-	for r in keys:
-		if not resolver.can_resolve(EntryPath(r).last_tag):
-			continue
-		re_ = r.split('.')
-		for p in keys:
-			if p.startswith(r) and p.split('.')[:len(re_)] != re_:
-				prefix_safe = False
 	n = len(via.split('.'))
 	rel_safe = True
 	for p in keys[1:]:
@@ -202,7 +206,7 @@ def expand_safety(nodes: Any, via: str) -> tuple[bool, bool, bool]:
 	all_paths = list(cache.group_by(via).keys())
 	has_child = lambda p: cache.by(p).has_child
 	depth_safe = ideal_expand(via, all_paths, has_child, resolver.can_resolve, 3) == ideal_expand(via, all_paths, has_child, resolver.can_resolve)
-	return prefix_safe, rel_safe, depth_safe
+	return rel_safe, depth_safe
 
 
 def real_op(finder: Any, nodes: Any, root: Any, pf: dict[str, Any], op: list[str], with_class: bool) -> str:
@@ -223,8 +227,8 @@ def real_op(finder: Any, nodes: Any, root: Any, pf: dict[str, Any], op: list[str
 		if kind == 'groupby':
 			return 'ok ' + ','.join(nodes._Nodes__entries.group_by(op[1], int(op[2])).keys())
 		if kind == 'expandsafe':
-			a, b, c = expand_safety(nodes, op[1])
-			return f'ok {str(a).lower()} {str(b).lower()} {str(c).lower()}'
+			b, c = expand_safety(nodes, op[1])
+			return f'ok {str(b).lower()} {str(c).lower()}'
 		fmt = (lambda n: f'{n.full_path}:{type(n).__name__}') if with_class and not kind.endswith('p') else (lambda n: n.full_path)
 		if kind in ('children', 'childrenp'):
 			return 'ok ' + ','.join(fmt(n) for n in nodes.children(op[1]))
@@ -259,7 +263,7 @@ def case_random(rng: random.Random, max_depth: int, max_width: int) -> tuple[dic
 	tags = ['root', '__empty__', *trees.TAG_POOL]
 	table, fallback = gen_table(rng, tags)
 	di = make_di(root, table, fallback)
-	finder = ASTFinder()
+	finder = shared_finder()
 	pf = finder.full_pathfy(root)
 	nodes = di.resolve(Query[Node])
 	resolver = di.resolve(NodeResolver)
@@ -347,7 +351,7 @@ def case_real(rng: random.Random, entry: Any, table: str, tags: list[str]) -> tu
 	from rogw.tranp.syntax.ast.query import Query
 	from rogw.tranp.syntax.node.node import Node
 
-	finder = ASTFinder()
+	finder = shared_finder()
 	pf = finder.full_pathfy(entry)
 	# the real symbol mapping decides `can_resolve`; classes are irrelevant for the path-only ops used here
 	from rogw.tranp.providers.syntax.resolver import symbol_mapping
@@ -412,14 +416,14 @@ def nodes_of_dict(t: dict[str, Any], resolvable: list[str]) -> tuple[Any, Any, l
 
 
 def stream_corpus(ctx: Ctx) -> Stream:
-	"""The committed witnesses of expand_prefix / expand_relativefy / expand_depth3 _counterexample, op by op."""
+	"""The committed witnesses (regression of the repaired prefix defect, expand_relativefy / expand_depth3 _counterexample), op by op."""
 	from rogw.tranp.syntax.ast.finder import ASTFinder
 	cases = []
 	for name, w in load_corpus().items():
 		if w.get('kind') != 'dict':
 			continue
 		root, nodes, table = nodes_of_dict(w['tree'], w['resolvable'])
-		finder = ASTFinder()
+		finder = shared_finder()
 		pf = finder.full_pathfy(root)
 		ops: list[list[str]] = [['tree', trees.dict_sexp(w['tree'])], table_line(table, ('T', 'always')).split('\t'), ['pathfy']]
 		for p in pf.keys():
@@ -435,7 +439,7 @@ def stream_corpus(ctx: Ctx) -> Stream:
 				real.append(real_op(finder, nodes, root, pf, op, True))
 		cases.append(({'kind': 'corpus:' + name, 'entries': len(pf)}, lines, real))
 	st = common.correspond('tree-corpus', cases, 'tree', classify=lambda d: d['kind'])
-	st.note = 'witness trees of C10.expand_prefix_counterexample / expand_relativefy_counterexample / expand_depth3_counterexample: expand, expandp, expandsafe, values, groupby on every path'
+	st.note = 'regression witness r(list(x) list_comp) and witness trees of C10.expand_relativefy_counterexample / expand_depth3_counterexample: expand, expandp, expandsafe, values, groupby on every path'
 	return st
 
 
@@ -447,7 +451,7 @@ def stream_random(ctx: Ctx) -> Stream:
 		depth = 2 + (i % 4) if not ctx.thorough else 2 + (i % 5)
 		cases.append(case_random(rng, depth, 3 + (i % 4)))
 	st = common.correspond('tree-random', cases, 'tree', classify=lambda d: f"entries<{10 ** len(str(d['entries']))}")
-	st.note = 'EntryOfDict trees (repeated/unique/empty/prefix-sharing tags), synthetic node classes with path- and child-dependent match_feature, ops: pathfy, pluck (valid+mutated), id, exists, children, siblings, parent, ancestor, by, expand, expandp, values, groupby (depths -2..5), expandsafe (the three side conditions of expand_spec), clear'
+	st.note = 'EntryOfDict trees (repeated/unique/empty/prefix-sharing tags), synthetic node classes with path- and child-dependent match_feature, ops: pathfy, pluck (valid+mutated), id, exists, children, siblings, parent, ancestor, by, expand, expandp, values, groupby (depths -2..5), expandsafe (the side conditions of expand_spec / expand_spec_full), clear'
 	return st
 
 
@@ -475,7 +479,11 @@ def stream_real(ctx: Ctx) -> Stream:
 # search: the laws on the real code
 
 
+_LAST_PATH: list[str] = []
+
+
 def _law_violation(finder: Any, root: Any, walk: list[tuple[str, Any]], pf: dict[str, Any]) -> str | None:
+	_LAST_PATH.clear()
 	from rogw.tranp.syntax.ast.cache import EntryCache
 	if len(pf) != len(walk):
 		return f'full_pathfy has {len(pf)} paths for {len(walk)} entries'
@@ -484,6 +492,7 @@ def _law_violation(finder: Any, root: Any, walk: list[tuple[str, Any]], pf: dict
 	for p, e in walk:
 		got = finder.pluck(root, p)
 		if not same_entry(got, e) or not same_entry(pf[p], e):
+			_LAST_PATH.append(p)
 			return f'pluck({p}) is not the entry at that position'
 	cache: Any = EntryCache()
 	for p, e in pf.items():
@@ -500,6 +509,7 @@ def search_laws(ctx: Ctx) -> SearchResult:
 
 	rng = ctx.sub_rng('laws')
 	res = SearchResult('bijection laws on real ASTFinder/EntryCache vs an independent tree walk')
+	# ONE finder for all cases of this search (not the streams' one, so that a finding is reproducible from this search alone)
 	finder = ASTFinder()
 	app = common.MemApp(ctx.tmpdir())
 	roots: list[tuple[str, Any]] = []
@@ -511,6 +521,7 @@ def search_laws(ctx: Ctx) -> SearchResult:
 		except Exception:  # noqa: BLE001
 			continue
 	seen = set()
+	earlier: list[tuple[str, Any]] = []
 	for name, root in roots:
 		res.cases += 1
 		walk = trees.walk_entries(root)
@@ -524,8 +535,18 @@ def search_laws(ctx: Ctx) -> SearchResult:
 		except Exception as e:  # noqa: BLE001 - the laws say these calls succeed: an exception is a violation, not a harness failure
 			bad = f'real code raised {exc_enum(e)} while checking the addressing laws: {str(e)[:200]}'
 		if bad:
-			res.findings.append(Finding(key='bijection', what=bad, replay={'tree': name, 'sexp': trees.entry_sexp(root)[:20000]}))
+			# the ASTFinder instance is shared by all cases (and with the streams): an answer that depends on an earlier tree
+			# needs that earlier tree to reproduce, so the previous case is part of the replay
+			rep: dict[str, Any] = {'tree': name, 'sexp': trees.entry_sexp(root)[:20000], 'one_finder_instance_for_all_trees': True, 'earlier_trees': len(earlier)}
+			if _LAST_PATH:
+				rep['path'] = _LAST_PATH[0]
+				for en, er in earlier:
+					if any(p == _LAST_PATH[0] for p, _ in trees.walk_entries(er)):
+						rep['earlier_tree_with_the_same_path'] = {'tree': en, 'sexp': trees.entry_sexp(er)[:20000]}
+						break
+			res.findings.append(Finding(key='bijection', what=bad + f' (one ASTFinder instance, {len(earlier)} earlier trees)', replay=rep))
 			break
+		earlier.append((name, root))
 		if len(res.samples) < 2:
 			res.samples.append({'tree': name, 'entries': len(walk), 'first_paths': [p for p, _ in walk[:5]]})
 	res.distinct = len(seen)
@@ -685,35 +706,27 @@ def _levels_under(via: str, paths: list[str], depth: int) -> list[str]:
 	return [p for p in paths if p == via or (p.startswith(via + '.') and (depth < 0 or len(p.split('.')) - n <= depth))]
 
 
-def _safe_from_walk(via: str, paths: list[str], has_child: Any, resolvable: Any) -> tuple[bool, bool]:
-	"""Independent (walk-only) versions of PrefixSafe and of a sufficient condition for RelativefySafe: the string `via`
-	does not occur again to the right of `via` in a terminal's path (then `origin.split(via)[1]` is the whole remainder)."""
+def _safe_from_walk(via: str, paths: list[str], has_child: Any) -> bool:
+	"""Independent (walk-only) sufficient condition for RelativefySafe: the string `via` does not occur again to the right of
+	`via` in a terminal's path (then `origin.split(via)[1]` is the whole remainder)."""
 	under = _levels_under(via, paths, 3)
-	prefix_safe = True
-	for r in under:
-		if not resolvable(tag_of(r.split('.')[-1])):
-			continue
-		re_ = r.split('.')
-		for p in under:
-			if p.startswith(r) and p.split('.')[:len(re_)] != re_:
-				prefix_safe = False
-	rel_safe = all(via not in p[len(via):] for p in under[1:] if not has_child(p))
-	return prefix_safe, rel_safe
+	return all(via not in p[len(via):] for p in under[1:] if not has_child(p))
 
 
 def search_expand(ctx: Ctx) -> SearchResult:
 	"""expand / values / group_by of the real Nodes on random trees against the tree itself (document-order walk), on the
-	domain where C10.expand_spec(_full) says they agree; outside it the three latent hazards are only counted."""
+	domain where C10.expand_spec(_full) says they agree; outside it the latent relativefy hazard is only counted."""
 	from rogw.tranp.syntax.ast.entry import EntryOfDict
 
 	rng = ctx.sub_rng('expand')
-	res = SearchResult('expand / values / group_by of the real Nodes vs the tree (random trees; expand on the PrefixSafe+RelativefySafe domain)')
+	res = SearchResult('expand / values / group_by of the real Nodes vs the tree (random trees; expand on the RelativefySafe domain)')
 	seen = set()
 	hist: dict[str, int] = {}
 
 	def bump(k: str) -> None:
 		hist[k] = hist.get(k, 0) + 1
 
+	latent: list[str] = []
 	# the witnesses of the counterexample theorems, replayed on the real Nodes (synthetic tag sets: latent, not findings)
 	for name, w in load_corpus().items():
 		if w.get('kind') != 'dict':
@@ -723,8 +736,15 @@ def search_expand(ctx: Ctx) -> SearchResult:
 			got = [n.full_path for n in nodes.expand(w['via'])]
 		except Exception as e:  # noqa: BLE001
 			got = [exc_enum(e)]
-		res.samples.append({'latent_witness': name, 'theorem': w['lean_theorem'], 'real_expand': got, 'tree_says': w['tree_says'], 'reproduced_on_real_code': got != w['tree_says']})
-		bump('witness-reproduced' if got != w['tree_says'] else 'witness-not-reproduced')
+		if w.get('regression'):
+			# a repaired defect: the real code must agree with the tree
+			bump('regression-witness-passes' if got == w['tree_says'] else 'regression-witness-fails')
+			if got != w['tree_says']:
+				res.findings.append(Finding(key='expand-drops-sibling:' + name, what=f"expand({w['via']}) = {got}, the tree says {w['tree_says']} ({w['what']})",
+					replay={'tree': w['tree'], 'resolvable': w['resolvable'], 'via': w['via']}))
+			continue
+		latent.append(f"{name}: real expand = {got}, tree says {w['tree_says']}, reproduced = {got != w['tree_says']}")
+		bump('latent-witness-reproduced' if got != w['tree_says'] else 'latent-witness-not-reproduced')
 
 	for i in range(ctx.scale(70, 1200)):
 		t = trees.gen_dict_tree(rng, 2 + i % 5, 2 + i % 4)
@@ -744,15 +764,15 @@ def search_expand(ctx: Ctx) -> SearchResult:
 		for via in vias:
 			try:
 				got = [n.full_path for n in nodes.expand(via)]
-				prefix_safe, rel_safe = _safe_from_walk(via, paths, has_child, is_res)
+				rel_safe = _safe_from_walk(via, paths, has_child)
 				capped = ideal_expand(via, paths, has_child, is_res, 3)
 				full = ideal_expand(via, paths, has_child, is_res)
-				if prefix_safe and rel_safe:
+				if rel_safe:
 					bump('safe' if capped == full else 'safe-but-deeper-than-3')
 					if got != capped:
 						bad = f'expand({via}) = {got}, the tree (3 levels) says {capped}'
 				else:
-					bump('prefix-unsafe' if not prefix_safe else 'relativefy-unsafe')
+					bump('relativefy-unsafe')
 					if got != capped:
 						bump('unsafe-and-differs')
 				vals = nodes.values(via)
@@ -774,7 +794,7 @@ def search_expand(ctx: Ctx) -> SearchResult:
 			break
 	res.distinct = len(seen)
 	res.histogram = hist
-	res.note = 'latent_witness samples: synthetic tag sets on which the real expand departs from the tree exactly as the *_counterexample theorems say (not counted as findings)'
+	res.note = 'latent witnesses (synthetic tag sets on which the real expand departs from the tree exactly as the *_counterexample theorems say; not findings): ' + ' | '.join(latent)
 	return res
 
 
@@ -876,9 +896,8 @@ STATEMENTS = {
 	'groupBy_unbounded': 'group_by(via) with negative (unbounded) depth = the whole pre-order enumeration of the subtree at via',
 	'groupBy_zero': 'group_by(via, 0) = {}',
 	'values_document_order': 'Nodes.values(via) = the non-empty token values of the subtree at via in document order',
-	'expand_spec': 'Nodes.expand(via) (paths before resolution) = for each child subtree, three levels deep, the entry itself when its tag is resolvable or it is a terminal, else the same for its children — under the decidable side conditions PrefixSafe and RelativefySafe',
+	'expand_spec': 'Nodes.expand(via) (paths before resolution) = for each child subtree, three levels deep, the entry itself when its tag is resolvable or it is a terminal, else the same for its children — under the decidable side condition RelativefySafe (no condition on sibling tags since the repair 8ae8ddc)',
 	'expand_spec_full': 'with, in addition, nothing expandable deeper than three levels: expand(via) = nearest resolvable descendants + terminals without a resolvable ancestor below via (no depth cap)',
-	'expand_prefix_counterexample': '_counterexample: without PrefixSafe expand_spec is false — siblings list (resolvable) / list_comp: the sibling is dropped by path.startswith(cached) (real grammar shape: genuine finding expand-drops-sibling)',
 	'expand_relativefy_counterexample': '_counterexample: without RelativefySafe expand_spec is false — via r, terminal r.ar.t, a resolvable: origin.split(starts)[1] truncates the relative path (synthetic tags only: latent)',
 	'expand_depth3_counterexample': '_counterexample: three levels do not suffice in general — a resolvable entry four levels below via behind unresolvable tree entries is missed (not reachable in the real grammar as far as the search sees: latent)',
 	'resolve_order': 'for every World (tree, cache, class table, features) and every instance cache reachable by any sequence of successful Nodes.by resolutions, the class returned for p equals the cache-free first-accepting-class choice classOf',
@@ -900,17 +919,17 @@ def run(ctx: Ctx) -> int:
 				'ids follow document order (ids_preorder, cache_by); children / parent / siblings / ancestor agree with the tree and with each other '
 				'(children_agree, children_entries, parent_nearest, parent_of_child, siblings_agree, siblings_root, ancestor_nearest — on the path lists before class resolution); '
 				'group_by for every depth, values (subtree_enumeration, groupBy_depth/unbounded/zero, values_document_order); '
-				'expand agrees with the tree under PrefixSafe + RelativefySafe (expand_spec, expand_spec_full) and provably not without them / beyond three levels '
-				'(expand_prefix_counterexample, expand_relativefy_counterexample, expand_depth3_counterexample); '
+				'expand agrees with the tree under RelativefySafe (expand_spec, expand_spec_full) and provably not without it / beyond three levels '
+				'(expand_relativefy_counterexample, expand_depth3_counterexample: latent, synthetic tag sets only); '
 				'the node class is independent of earlier queries (resolve_order, resolve_order_queries) — all on the model, for all trees / worlds',
 			'correspondence_only': 'the real match_feature functions are pure functions of (tree, path) — validated by query permutations on real modules; '
 				'the node-instance memoisation inside Nodes (Memoize) is not modelled (every op is a function of the tree and the table)',
-			'search_only': 'that no expandable entry of a real parse tree lies deeper than three levels below its node, and that PrefixSafe holds on real parse trees except for the list/list_comp and dict/dict_comp sibling shapes (finding expand-drops-sibling)',
+			'search_only': 'that no expandable entry of a real parse tree lies deeper than three levels below its node and that RelativefySafe holds there (every entry path of real parse trees: expand = uncapped tree computation)',
 		},
 		assumptions=[
 			'tags are non-empty and free of ".", "[" and "]" (true of every lark rule/terminal name and of __empty__)',
 			"int() spellings other than ASCII digits with optional '-' are outside the model and never generated",
-			'expand_spec: PrefixSafe (a resolvable path is a string prefix of another path among group_by(via, 3) only if it is an element-wise prefix) and RelativefySafe (relativefy(via) yields the true relative tags for the terminals below via); both decidable and re-computed on the real objects by the expandsafe op',
+			'expand_spec: RelativefySafe (relativefy(via) yields the true relative tags for the terminals below via); decidable and re-computed on the real objects by the expandsafe op',
 		],
 		trusted=['EntryOfDict/EntryOfLark expose the tree faithfully (C15 covers the lark side)'])
 
